@@ -12,6 +12,11 @@ func flatten(sc *Scn) *Scn {
 		if len(n.LateConns) > 0 {
 			return nil // tables that change between runs are compared with the model only
 		}
+		for _, vs := range n.Visits {
+			if vs.Post.Conn != nil || vs.Prep.Conn != nil {
+				return nil // so are tables changed from inside a callback
+			}
+		}
 	}
 	// every node must be a member of at most one flow
 	owner := map[int]int{}
